@@ -510,11 +510,27 @@ func (t *Task) IsDone() bool { return t.state == done }
 func (s *Sched) Run() {
 	// wall-clock guard: a task that blocks outside the seams of the scheduler (a channel operation, a real
 	// sleep) keeps the token for ever. That is trouble of the machinery, never a verdict: leave loudly.
-	guard := time.AfterFunc(stallAfter, func() {
+	finished := make(chan struct{})
+	defer close(finished)
+	go func() {
+		// counted in 100 ms naps that really took about 100 ms: a frozen machine or process accumulates none
+		const nap = 100 * time.Millisecond
+		for count := 0; count < int(stallAfter/nap); {
+			t0 := time.Now()
+			select {
+			case <-finished:
+				return
+			case <-time.After(nap):
+			}
+			if time.Since(t0) > 10*nap {
+				count = 0
+				continue
+			}
+			count++
+		}
 		fmt.Fprintf(os.Stderr, "VERIF-STALL: a scheduled run did not finish within %v of wall-clock time (a task blocked outside the scheduler's seams?)\n", stallAfter)
 		os.Exit(97)
-	})
-	defer guard.Stop()
+	}()
 	s.start()
 	rawRead(s.mainR)
 	if !s.aborted() {
